@@ -135,7 +135,7 @@ def run_case(seed):
 
     pf = gen.gen_plotfile(rng, ndims=3, payload=rng.choice(['ints', 'random']), max_blocks=2, nfields=(1, 4),
                           nlevels=rng.choice([1, 2, 2, 3]), geo_stream='exact', bf=rng.choice([2, 2, 4]),
-                          mesh=rng.choice(['blocks', 'blocks', 'chunky']))
+                          mesh=rng.choice(['blocks', 'blocks', 'chunky']), odd0=0.3)
     cn = rng.randrange(3)
     pkind = rng.choice(['keep', 'keep', 'affine', 'const'])
     gen_payload(rng, pf, cn, pkind)
